@@ -63,14 +63,17 @@ WakeAll(cpc0, rpc0) ==
 
 ------------------------------------------------------------------------------
 (* hot_reload(): get_unique_token; sender.send(Ptr(.., token)) *)
-Request(c) ==
+RequestTok(c, n) ==
     /\ cpc[c] = "idle" /\ ncalls[c] < MaxCalls
-    /\ tok' = [tok EXCEPT ![c] = next]
-    /\ next' = next + 1
-    /\ chan' = chan \cup {next}
+    /\ n \notin chan /\ n \notin answered
+    /\ tok' = [tok EXCEPT ![c] = n]
+    /\ next' = IF n >= next THEN n + 1 ELSE next
+    /\ chan' = chan \cup {n}
     /\ ncalls' = [ncalls EXCEPT ![c] = @ + 1]
     /\ cpc' = [cpc EXCEPT ![c] = "acq"]
     /\ UNCHANGED <<mutex, slot, waiting, rpc, rtok, processed, answered>>
+
+Request(c) == RequestTok(c, next)
 
 (* wait_for_answer: current_token.lock() (also the re-lock after a wake-up) *)
 CLock(c) ==
